@@ -50,7 +50,7 @@ func init() {
 	Register(&Rule{ID: "GROWLOOP", Props: []string{"C04", "C09"}, Min: 2,
 		Doc: "height changes are applied until the rule is satisfied: Insert calls the level-adding function inside a loop and Delete calls the level-removing function inside a loop (one insert or delete may change the height by more than one).",
 		Run: runGROWLOOP})
-	Register(&Rule{ID: "NILSLICE", Props: []string{"C08", "C14"}, Min: 10,
+	Register(&Rule{ID: "NILSLICE", Props: []string{"C08", "C14", "C04"}, Min: 10,
 		Doc: "a node's Key and Value slices are never nil, only empty: every slice stored into them is made, literal, the node's own field, or an append onto such a slice — nil and empty encode differently under the JSON node format.",
 		Run: runNILSLICE})
 }
@@ -1025,6 +1025,10 @@ func runFINDOPTS(c *Ctx) {
 				case "targetLayer":
 					n++
 					what := "findOptions.targetLayer in " + ir.FuncName(fn)
+					if inSeekRegion(c, fn) {
+						c.OK(pos, what, "range scan: decided by SEEKLEAF (descends to the leaves)", true)
+						continue
+					}
 					switch minLayerHeight(c, st.Val, 0) {
 					case 0:
 						c.Violation(fn, pos, "targetLayer is not min(key layer, height)",
